@@ -191,11 +191,19 @@ def run(ctx):
     # ---- writing side
     n_trees = 120 if ctx.thorough else 40
     combos = [(k, v) for k in S.KEY_MAPS for v in S.VALUE_MAPS]
-    for k in range(n_trees):
+    corpus = [
+        ("plain-str", [(0, [(6, [(2, [])])]), (1, [(6, [(2, [])]), (7, [])]), (6, [(2, [])])]),      # later clone occurrences that have children
+        ("typed-str", [({"a": 0, "k": "a"}, [({"a": 6, "k": "b"}, [({"a": 2, "k": "a"}, [])])]), ({"a": 1, "k": "a"}, [({"a": 6, "k": "b"}, [({"a": 2, "k": "a"}, [])]), ({"a": 7, "k": "a"}, [({"a": 6, "k": "a"}, [])])])]),
+    ]
+    for k in range(n_trees + len(corpus)):
         cfg = ["plain-str", "plain-obj", "typed-str", "typed-obj"][k % 4]
         typed = cfg.startswith("typed")
         labels = S.STRS if cfg.endswith("str") else S.STRS[:3] + S.OBJ
-        spec = S.random_label_spec(rng, rng.randrange(3, 14), labels, typed)
+        if k >= n_trees:
+            cfg, spec = corpus[k - n_trees]
+            typed = cfg.startswith("typed")
+        else:
+            spec = S.random_label_spec(rng, rng.randrange(3, 14), labels, typed)
         tree = adapter.build(spec, pool, typed=typed)
         for km_name, vm_name in (combos if ctx.thorough else [combos[(k + j * 4) % 9] for j in range(3)]):
             key_map, value_map = S.KEY_MAPS[km_name], S.VALUE_MAPS[vm_name]
